@@ -5,4 +5,5 @@ cd "$(dirname "$0")"
 export CARGO_NET_OFFLINE=true
 export RUSTFLAGS="--cfg gm_rs_verif"
 ( cd sim && cargo build --release --offline 2>&1 | tail -3 )
+cc -O2 -shared -fPIC -o sim/target/simenv.so sim/shim/simenv.c
 sim/target/release/gmsim selftest
